@@ -25,7 +25,7 @@ ASSUME = [
 IMPLS = ['input(A,B) output(Y) Y=AND2(A,B)', 'input(A) output(Y,Z) Y=INV1(A) Z=BUF1(Y)', 'input(A,B) output(Y) T=OR2(A,B) Y=XOR2(T,A)',
          'input(A,B,C) output(Y) X=INV1(C) Y=AND2(X,A)']       # ignores input B while pin 1 of the designated cell is in use
 KINDS = ['AND2', 'DFF', 'input']
-SEEDS = ['input(a,b) output(z) z=and(a,b)', 'input(a) output(z,y) x=not(a) z=buf(x) y=or(x,a)', 'input(a) output(q) q=dff(d) d=xor(q,a)']
+SEEDS = ['input(a) output(x,y,z) x=not(a) y=buf(a) z=and(a,a)', 'input(a,b) output(z) z=and(a,b)', 'input(a) output(z,y) x=not(a) z=buf(x) y=or(x,a)', 'input(a) output(q) q=dff(d) d=xor(q,a)']
 
 
 def impl(k):
